@@ -13,7 +13,8 @@ def from_file(cls, name, fname):
             pval = cls._cparams["params"][key]["def"]
         else:
             raise KeyError("Parameter dict is missing entry for '{}'".format(key))
-        if type(pval) not in cls._cparams["params"][key]["typ"]:
+        # exact type for scalars (a bool is no number), but any dict for a table: the parser returns a dict subclass for an inline table
+        if type(pval) not in cls._cparams["params"][key]["typ"] and not (dict in cls._cparams["params"][key]["typ"] and isinstance(pval, dict)):
             raise ValueError("Parameter {} is not of the correct type".format(key))
         fparams[key] = pval
     if "limits" in config:
